@@ -18,7 +18,7 @@ from mdsim.props import _ds
 PROP = "C18"
 LEVEL = "exploration"
 TECHNIQUE = "deterministic simulation across interpreter processes with simulator-chosen PYTHONHASHSEED (S-PROC) and seeded construction/load histories; cross-process log agreement + field-wise round-trip reference"
-RUNS = {"quick": 60, "thorough": 600}  # histories (each replicated in every hash-seed slot)
+RUNS = {"quick": 60, "thorough": 1500}  # histories (each replicated in every hash-seed slot)
 HASHSEED_SLOTS = {"quick": 3, "thorough": 12}
 FRESH = {"quick": 4, "thorough": 16}
 JOB_TIMEOUT = 600.0
